@@ -11,7 +11,7 @@ PROPERTY = "C07"
 LEVEL = "exploration"
 RACE_INTERPS = ["3.11", "3.12"]
 RULE = ("Blocked leg (CPython 3.9-3.12): Hypothesis-generated thread bodies of call depth 1..6 with 0-3 nested with blocks "
-        "per frame (single and multi-item, inside try/finally), each level calling inward by a plain / returned / *args / **kwargs call, blocked on an Event at the innermost level or with the innermost level itself blocked in a C callable (lock.acquire, same four call forms); oracle = shadow call "
+        "per frame (single and multi-item, inside try/finally), each level calling inward by a plain / returned / *args / **kwargs call, the thread being a Thread(target=...), a Thread subclass, a Timer or a thread started through _thread (dummy Thread object), blocked on an Event at the innermost level or with the innermost level itself blocked in a C callable (lock.acquire, same four call forms); oracle = shadow call "
         "log: harness frames of extract(thread) equal it outermost first with contexts equal to each frame's managers, all "
         "frames equal the thread's f_back chain, threading internals hidden; unstarted / finished threads give no frames and no "
         "error. Racing leg (3.11, 3.12; guarded yield points): three scripted target threads plus Hypothesis-generated scripts (with / for / try-finally over gates) (nested and multi-item with "
@@ -42,7 +42,11 @@ APIS = ["thread", "ctx", "since", "inspect"]
 def bodies():
     # per level: [with-nesting shape 0..3, call form 0..9 (plain / returned / *args / **kwargs; 6..9: the innermost level
     # blocks in a C callable by itself)]
-    return st.lists(st.tuples(st.integers(0, 3), st.integers(0, 9)).map(list), min_size=1, max_size=6)
+    lv = st.lists(st.tuples(st.integers(0, 3), st.integers(0, 9)).map(list), min_size=1, max_size=6)
+    # how the thread came to be: Thread(target=...), a Thread subclass overriding run(), a Timer, or a thread started
+    # behind the threading module's back (its Thread object is a dummy)
+    return st.tuples(lv, st.sampled_from(["target", "target", "subclass", "timer", "raw"])).map(
+        lambda p: p[0] if p[1] == "target" else p[0] + [p[1]])
 
 
 def scripts():
@@ -72,9 +76,12 @@ def check_generated(ws, case, out):
 
 def check_blocked(ws, interps, levels, out):
     viols = []
+    tkind = "target"
+    if levels and isinstance(levels[-1], str):
+        levels, tkind = levels[:-1], levels[-1]
     for interp in interps:
         try:
-            res = ws[interp].request({"op": "threads.blocked", "levels": levels})
+            res = ws[interp].request({"op": "threads.blocked", "levels": levels, "thread_kind": tkind})
         except WorkerDied as ex:
             viols.append({"desc": "interpreter %s died (exit %r)" % (interp, ex.returncode), "interp": interp})
             continue
@@ -85,7 +92,8 @@ def check_blocked(ws, interps, levels, out):
     cnames = ["plain", "ret", "star", "retstar", "kw", "retkw", "c_plain", "c_ret", "c_star", "c_retstar"]
     classes = ["blocked", "blocked.depth.%d" % len(lv)] + ["blocked.call." + cnames[c if k == len(lv) - 1 or c < 6 else c - 6]
                                                             for k, (_s, c) in enumerate(lv)]
-    out.note_case({"levels": levels}, len(lv) >= 2 and sum(x[0] for x in lv) >= 2,
+    classes.append("blocked.thread_kind." + tkind)
+    out.note_case({"levels": levels + ([tkind] if tkind != "target" else [])}, len(lv) >= 2 and sum(x[0] for x in lv) >= 2,
                   classes=sorted(set(classes)), n_eval=len(interps))
     return viols
 
